@@ -285,7 +285,11 @@ func TestVfC13(t *testing.T) {
 		path     string
 		readOnly map[string]bool // methods that are read-only on this endpoint
 	}
-	endpoints := []string{"/cas/" + hash, "/ac/" + acHash, "/inst/ac/" + acHash, "/status", "/metrics", "/"}
+	// the instance-prefixed endpoint uses its own key: without key mangling it would name the same
+	// entry as /ac/<acHash>, the seeding below would overwrite it and the old file would be deleted
+	// in the background - a file count that changes for a reason of the harness's own making
+	acHash2 := strings.Repeat("cd", 32)
+	endpoints := []string{"/cas/" + hash, "/ac/" + acHash, "/inst/ac/" + acHash2, "/status", "/metrics", "/"}
 	// seed: with valid credentials store a blob and an action result, so that
 	// an authorised read is a 200 and a 404 can never hide a missing check
 	{
